@@ -2641,3 +2641,92 @@ func ruleOracleRequestsReconciled(c *Ctx) {
 		c.Fail("oracle-requests-reconciled.updateCache", c.P.Pos(adds[0].call.Pos()), "Oracle.updateCache does not check the map it hands to the oracle service against contract storage (no loop over that map with the storage lookup in front of AddRequests)")
 	}
 }
+
+// ---------------------------------------------------------------------------
+// amount-exact (C05): token amounts are arbitrary-precision integers from the argument stack to the balance record.
+// The deltas handed to the balance updaters (updateAccBalance, addTokens) never pass through a 64-bit narrowing
+// (big.Int.Int64/Uint64): an amount of 2^64+7 debited as 7 and credited in full creates tokens from nothing while the
+// supply item stays unchanged. Definitions are followed through locals and through in-place big.Int arithmetic
+// (`x.SetInt64(y)` defines x from y).
+func ruleAmountExact(c *Ctx) {
+	narrow := map[string]bool{"math/big.(*Int).Int64": true, "math/big.(*Int).Uint64": true}
+	sinks := map[string][]int{"pkg/core/native.(*nep17TokenNative).updateAccBalance": {2, 3}, "pkg/core/native.(*nep17TokenNative).addTokens": {2}}
+	n := 0
+	for _, fd := range c.P.AllFuncDecls() {
+		if fd.Decl.Body == nil || pkgRel(fd.Pkg.Types) != "pkg/core/native" {
+			continue
+		}
+		f := c.P.NewFuncCFG(fd)
+		info := fd.Pkg.TypesInfo
+		var srcOf func(e ast.Expr, depth int, seen map[types.Object]bool) string
+		srcOf = func(e ast.Expr, depth int, seen map[types.Object]bool) string {
+			if depth > 4 {
+				return ""
+			}
+			bad := ""
+			ast.Inspect(e, func(x ast.Node) bool {
+				if bad != "" {
+					return false
+				}
+				switch y := x.(type) {
+				case *ast.CallExpr:
+					if narrow[f.calleeSym(y)] {
+						bad = types.ExprString(y)
+					}
+				case *ast.Ident:
+					o := info.ObjectOf(y)
+					v, ok := o.(*types.Var)
+					if !ok || v.IsField() || seen[o] {
+						return true
+					}
+					seen[o] = true
+					ast.Inspect(fd.Decl.Body, func(z ast.Node) bool {
+						if bad != "" {
+							return false
+						}
+						switch d := z.(type) {
+						case *ast.AssignStmt:
+							for i, l := range d.Lhs {
+								if id, ok := l.(*ast.Ident); ok && info.ObjectOf(id) == o && i < len(d.Rhs) {
+									if b := srcOf(d.Rhs[i], depth+1, seen); b != "" {
+										bad = b
+									}
+								}
+							}
+						case *ast.CallExpr:
+							if se, ok := ast.Unparen(d.Fun).(*ast.SelectorExpr); ok {
+								if id, ok := ast.Unparen(se.X).(*ast.Ident); ok && info.ObjectOf(id) == o {
+									for _, a := range d.Args {
+										if b := srcOf(a, depth+1, seen); b != "" {
+											bad = b
+										}
+									}
+								}
+							}
+						}
+						return true
+					})
+				}
+				return true
+			})
+			return bad
+		}
+		for sym, idxs := range sinks {
+			for _, st := range f.CallSites(sym) {
+				for _, ix := range idxs {
+					if ix >= len(st.call.Args) {
+						continue
+					}
+					n++
+					key := fmt.Sprintf("amount-exact.%s#%d", FuncKey(fd.Obj), n)
+					if bad := srcOf(st.call.Args[ix], 0, map[types.Object]bool{}); bad != "" {
+						c.Fail(key, c.P.Pos(st.call.Pos()), fmt.Sprintf("%s hands %s an amount that went through a 64-bit narrowing (%s): amounts beyond int64 are debited or credited truncated while the other side of the movement uses the full value", FuncKey(fd.Obj), shortSym(sym), bad))
+					} else {
+						c.OK(key, c.P.Pos(st.call.Pos()), "the amount reaches the balance updater without a 64-bit narrowing")
+					}
+				}
+			}
+		}
+	}
+	c.Floor("amounts handed to the balance updaters", n, 4)
+}
